@@ -24,6 +24,9 @@ from koala import graph_utils as gu
 from koala.lattice import Lattice, cut_boundaries
 
 
+CLIPLOG = []          # (start, displacement, fraction) of judged images: compared with the Lean model `Plot.frac` (theorem fractions_sum_one)
+
+
 def clip_fraction(p, q):
     """exact fraction of the segment p->q (pairs of Fractions) that lies inside the closed unit square (Liang-Barsky)"""
     t0, t1 = Fraction(0), Fraction(1)
@@ -91,7 +94,10 @@ def judge_edges(ctx, name, l, subset_idx, labels_full, scheme, segs, cols, rep):
         i, k = owner
         a, b = base[i]
         p = (fr(a[0]) + k[0], fr(a[1]) + k[1]); q = (fr(b[0]) + k[0], fr(b[1]) + k[1])
-        cover[i] += clip_fraction(p, q)
+        f = clip_fraction(p, q)
+        cover[i] += f
+        if len(CLIPLOG) < 4000:
+            CLIPLOG.append((p, (q[0] - p[0], q[1] - p[1]), f))
         want = rgba(scheme[int(labels_full[i])])
         if c != want:
             rep(f"image of edge {i} is drawn in colour {c}, its label {int(labels_full[i])} selects {want}"); return False
@@ -379,6 +385,19 @@ def run(ctx):
                                    dict(case="broadcast", N=N, arg=np.asarray(arg).tolist())); break
             else:
                 ctx.count("broadcast_cases_compared_with_model", len(bc_cases))
+    # ---- the oracle's clip fractions against the model's `frac` (exact on both sides)
+    if CLIPLOG:
+        cases = [[p[0].numerator, p[0].denominator, p[1].numerator, p[1].denominator, d[0].numerator, d[0].denominator, d[1].numerator, d[1].denominator] for p, d, _ in CLIPLOG]
+        o = core.Driver().run([dict(op="clipfrac", cases=cases)])[0]
+        if "err" in o:
+            ctx.corr_break(f"clip model error {o['err']}", dict(case="clipfrac"))
+        else:
+            bad = [k for k, ((_, _, f), (n, dd)) in enumerate(zip(CLIPLOG, o["frac"])) if f != Fraction(int(n), int(dd))]
+            if bad:
+                p0, d0, f0 = CLIPLOG[bad[0]]
+                ctx.corr_break(f"the harness's clip fraction {f0} of the segment {p0} + t {d0} differs from the model's {o['frac'][bad[0]]}", dict(case="clipfrac"))
+            else:
+                ctx.count("clip_fractions_compared_with_model", len(CLIPLOG))
     # ---- intersection helper on rational segments in general position
     G = 64
     n = 200 if quick else 3000
